@@ -78,7 +78,7 @@ package discovery
 //@   at-call os.Open [reads-the-named-file] arg0 == d.server
 //@   loop 1 invariant [scans-the-named-file] scanner.path == d.server
 //@   loop 1 step [one-entry-per-line] len(servers) == prev(len(servers)) + 1 && servers[len(servers) - 1] == scanner.line && !contains(scanner.line, "\n") && forall(i, 0, prev(len(servers)), servers[i] == prev(servers)[i])
-//@   loop 1 step [lines-in-file-order] scanner.consumed == prev(scanner.consumed) + scanner.line + "\n" || (scanner.consumed == prev(scanner.consumed) + scanner.line && scanner.consumed == fsData(d.server))
+//@   loop 1 step [lines-in-file-order] scanner.consumed == prev(scanner.consumed) + scanner.line + "\n" || scanner.consumed == prev(scanner.consumed) + scanner.line + "\r\n" || ((scanner.consumed == prev(scanner.consumed) + scanner.line || scanner.consumed == prev(scanner.consumed) + scanner.line + "\r") && scanner.consumed == fsData(d.server))
 //@   bind sc == bufio.NewScanner
 //@   ensures [read-to-the-end] !sc.failed && sc.consumed == fsData(d.server)
 
